@@ -22,7 +22,7 @@ func (h *Harness) unwind() int {
 }
 
 // probe contracts shipped with the engine (name -> directory under engine/probe)
-var probeContracts = map[string]string{"probe1": "subscriber1", "probe2": "subscriber2", "probe3": "puller"}
+var probeContracts = map[string]string{"probe1": "subscriber1", "probe2": "subscriber2", "probe3": "puller", "probe4": "mininns"}
 
 func findHarness(fn string) *Harness {
 	for i := range registry {
@@ -55,6 +55,9 @@ var registry = []Harness{
 		Quick: [][]int{{0, 0}, {0, 1}},
 		Thorough: [][]int{{0, 0}, {0, 1}, {1, 0}, {1, 1}},
 		Bound: "chained locks: an owner locks y1 on A, the Alphabet locks y2 <= y1 of A's funds on B (amounts, both until epochs 1..300 symbolic), one tick with a symbolic epoch (param0 = 1: through Netmap); param1 swaps the two lock addresses so the tick meets the inner lock before and after the outer one; supply = sum, supply unchanged, no negative balance, notifications reproduce the balances, an unexpired lock keeps its funds"},
+	{Prop: "C01", Pkg: "balance", Func: "VerifC16MigrateBalance", Link: []string{"netmap", "balance"},
+		Quick: [][]int{{0, 1}, {0, 2}, {1, 0}},
+		Bound: "the legacy-storage upgrade harness of C16 (accounts under bare 20-byte hashes, eras [0.15.4,0.17.0) and [0.17.0,0.20.0), symbolic version and amounts): after the upgrade, after a transfer and after the ticks around the lock's epoch the supply equals the sum of the balances"},
 	{Prop: "C01", Pkg: "balance", Func: "VerifC09Chained", Link: []string{"netmap", "balance"},
 		Quick: [][]int{{0, 0}, {0, 1}},
 		Bound: "the chained-lock harness of C09 (a lock whose source is a lock account, both lock-address orders, one tick): supply = sum of balances, no negative balance, the tick's notifications reproduce every balance"},
@@ -71,8 +74,8 @@ var registry = []Harness{
 		Unwind: 40,
 		Bound: "count c0 (param 0) set at epoch 0, t0 ticks (param 1), resize to symbolic count 0..param 3 (6 quick, 12 thorough), t1 ticks (param 2, plus one if 0); symbolic queries snapshot(d) d in -1..7, snapshotByEpoch(q), listNodes(q2); one node per published map carrying its epoch; param 4: the epoch whose map is published EMPTY (the node goes offline before that tick; 0: none), before or after the resize and after the ring wrapped"},
 	{Prop: "C06", Pkg: "netmap", Func: "VerifC06Tick", Link: []string{"netmap", "balance", "probe1", "probe2"},
-		Quick: [][]int{{1, 0, 1, 1}, {0, 0, 1, 1}, {0, 0, 1, 0}, {1, 0, 1, 0}, {0, 1, 1, 0}, {0, 0, 5, 0}, {0, 0, 6, 0}}, Thorough: [][]int{{0, 0, 1, 0}, {1, 0, 1, 0}, {2, 0, 1, 0}, {3, 0, 1, 0}, {0, 1, 1, 0}, {1, 1, 1, 0}, {0, 0, 2, 0}, {0, 0, 3, 0}, {0, 0, 4, 0}, {0, 0, 5, 0}, {0, 0, 6, 0}, {0, 0, 7, 0}},
-		Bound: "committee size param2 (1; 5 and 6 in quick, 2..7 in thorough) with the tick signed by a symbolic subset of {Alphabet 2n/3+1 account, committee n/2+1 account}; the two probe subscribers subscribe in the order given by param1 (both orders are run: one contradicts the order of the contract hashes), snapshot count param0 (0: the default 10; 1: the published list is the oldest kept), 3 legacy candidates (Online, Maintenance, Offline->removed), 1 structured, subscribers Balance+probe1+probe2 (probe1 subscribed twice), probe2 refuses one symbolic epoch; two newEpoch invocations with symbolic epochs -2..1000 and symbolic Alphabet signature; param3 = 1: every candidate goes offline between the two ticks, the second tick publishes empty maps (with snapshot count 1 into the slot that holds the first tick's list)"},
+		Quick: [][]int{{0, 0, 5, 0, 1}, {0, 1, 6, 0, 1}, {1, 0, 1, 1, 0}, {0, 0, 1, 1, 0}, {0, 0, 1, 0, 0}, {1, 0, 1, 0, 0}, {0, 1, 1, 0, 0}, {0, 0, 5, 0, 0}, {0, 0, 6, 0, 0}}, Thorough: [][]int{{0, 0, 5, 0, 1}, {0, 1, 6, 0, 1}, {0, 0, 3, 0, 1}, {0, 0, 7, 0, 1}, {0, 0, 1, 0, 0}, {1, 0, 1, 0, 0}, {2, 0, 1, 0, 0}, {3, 0, 1, 0, 0}, {0, 1, 1, 0, 0}, {1, 1, 1, 0, 0}, {0, 0, 2, 0, 0}, {0, 0, 3, 0, 0}, {0, 0, 4, 0, 0}, {0, 0, 5, 0, 0}, {0, 0, 6, 0, 0}, {0, 0, 7, 0, 0}},
+		Bound: "committee size param2 (1; 5 and 6 in quick, 2..7 in thorough) with the tick signed by a symbolic subset of {Alphabet 2n/3+1 account, committee n/2+1 account}; the two probe subscribers subscribe in the order given by param1 (both orders are run: one contradicts the order of the contract hashes), snapshot count param0 (0: the default 10; 1: the published list is the oldest kept), 3 legacy candidates (Online, Maintenance, Offline->removed), 1 structured, subscribers Balance+probe1+probe2 (probe1 subscribed twice), probe2 refuses one symbolic epoch; two newEpoch invocations with symbolic epochs -2..1000 and symbolic Alphabet signature; param4 = 1: a stand-alone Netmap (Balance, which checks the Alphabet witness itself when it is told the epoch, is not deployed); param3 = 1: every candidate goes offline between the two ticks, the second tick publishes empty maps (with snapshot count 1 into the slot that holds the first tick's list)"},
 	{Prop: "C07", Pkg: "netmap", Func: "VerifC07Candidates", Link: []string{"netmap"},
 		Quick: [][]int{{2, 0, 1}, {1, 1, 1}, {1, 2, 1}, {1, 0, 3}, {1, 0, 5}}, Thorough: [][]int{{3, 0, 1}, {2, 1, 1}, {2, 2, 1}, {1, 0, 2}, {1, 0, 3}, {1, 0, 4}, {1, 0, 5}, {1, 0, 6}, {1, 0, 7}},
 		Bound: "committee size param2 (1; 3 and 5 in quick, 2..7 in thorough: one size from every residue class modulo 3, where threshold slips hide), fixture param1 (0: empty; 1/2: n0 held by both lists in different states), then k (param0) consecutive operations, each with symbolic method (addPeer/addPeerIR/addNode/updateState/updateStateIR/deleteNode), symbolic target in the pool {n0,n1}, symbolic state in Z, symbolic Alphabet and node signatures; reference model tracks n0"},
@@ -94,9 +97,9 @@ var registry = []Harness{
 		Quick: [][]int{{2, 1, 1, 1}, {0, 0, 1, 1}, {1, 0, 2, 1}, {1, 0, 1, 5}, {1, 0, 1, 6}}, Thorough: [][]int{{2, 1, 1, 1}, {0, 0, 1, 1}, {1, 0, 2, 1}, {3, 2, 3, 1}, {1, 3, 0, 1}, {1, 0, 1, 2}, {1, 0, 1, 3}, {1, 0, 1, 4}, {1, 0, 1, 5}, {1, 0, 1, 6}, {1, 0, 1, 7}},
 		Bound: "committee size param3 (1; 5 and 6 in quick, 2..7 in thorough), batches of symbolic 33-byte keys of sizes (param0,param1) for vector 0 and param2 for vector 1, commit with symbolic REPs 0..255, second round with one batch, empty commit"},
 	{Prop: "C14", Pkg: "container", Func: "VerifC14Interleaved", Link: []string{"nns", "netmap", "balance", "neofsid", "container"},
-		Quick:    [][]int{{0, 1, 0, 0, 9, 9}, {0, 1, 1, 0, 9, 9}},
-		Thorough: [][]int{{0, 1, 0, 0, 9, 9}, {0, 1, 1, 0, 9, 9}, {0, 1, 2, 0, 1, 0}, {0, 0, 1, 0, 1, 9}, {0, 1, 0, 1, 0, 9}},
-		Bound:    "batches of two symbolic keys each for the vectors given by the params, in that order within one epoch (a lower vector revisited after a higher one was started), one commit: every vector holds its own batches in submission order"},
+		Quick:    [][]int{{0, 1, 0, 0, 9, 9}, {0, 1, 1, 0, 9, 9}, {0, 1, 8, 0, 9, 9}, {0, 8, 8, 1, 0, 9}},
+		Thorough: [][]int{{0, 1, 8, 0, 9, 9}, {0, 8, 8, 1, 0, 9}, {8, 0, 8, 1, 8, 1}, {0, 1, 0, 0, 9, 9}, {0, 1, 1, 0, 9, 9}, {0, 1, 2, 0, 1, 0}, {0, 0, 1, 0, 1, 9}, {0, 1, 0, 1, 0, 9}},
+		Bound:    "batches of two symbolic keys each for the vectors given by the params, in that order within one epoch (a lower vector revisited after a higher one was started), one commit: every vector holds its own batches in submission order; step 8 = an epoch tick delivered by Netmap in the middle of the roster update (the pending roster must survive it)"},
 	{Prop: "C14", Pkg: "container", Func: "VerifC14SecondEpoch", Link: []string{"nns", "netmap", "balance", "neofsid", "container"},
 		Quick: [][]int{{0}, {1}},
 		Bound: "vectors 0 and 1 committed; the next epoch starts with a batch for vector 1 while nothing is pending for vector 0 (param0 = 1: batches for vectors 0 and 1 follow), commit, then a third epoch with one batch for vector 0: what was accepted is the roster, in order, and every commit empties the pending roster"},
@@ -123,6 +126,8 @@ var registry = []Harness{
 	{Prop: "C20", Pkg: "container", Func: "VerifC20Estimations", Link: []string{"nns", "netmap", "balance", "neofsid", "container"},
 		Quick: [][]int{{1, 1, 1}, {2, 1, 1}, {2, 2, 2}}, Thorough: [][]int{{1, 1, 1}, {2, 1, 1}, {1, 2, 2}, {2, 2, 2}, {1, 2, 1}},
 		Bound: "five linked contracts, one container, one storage node of the previous epoch's map; two putContainerSize with symbolic epochs (classes 1..127 / 128..32767 by params) and sizes, three refused attempts, iterateContainerSizes for a symbolic epoch, one tick with a symbolic epoch 3..32767 and its clean-up"},
+	{Prop: "C20", Pkg: "container", Func: "VerifC20EstimationsAfterResize", Link: []string{"nns", "netmap", "balance", "neofsid", "container"},
+		Bound: "three storage nodes (one in the map of epoch 1 only, one in every map, one from epoch 2 on), the snapshot count set to a symbolic 2..4 at epoch 2 (ring index 2), a tick to epoch 3, then putContainerSize by each of them and by an outsider: accepted exactly from the nodes of the map of epoch 2"},
 	{Prop: "C20", Unwind: 60, Pkg: "container", Func: "VerifC20EstimationSeries", Link: []string{"nns", "netmap", "balance", "neofsid", "container"},
 		Quick: [][]int{{3}, {4}},
 		Bound: "one container, one storage node, param0 (3, 4) announcements with symbolic epochs 1..127 in any order (repetitions included) and symbolic sizes, against a model (an announcement removes the node's estimations more than 3 epochs older and overwrites the one of its epoch); all announced epochs read back after every announcement, every announcement required to be accepted; then one tick with a symbolic epoch 3..140"},
@@ -159,17 +164,17 @@ var registry = []Harness{
 		Thorough: [][]int{{1, 1, 0}, {1, 2, 0}, {1, 16, 0}, {1, 17, 0}, {1, 63, 0}, {0, 64, 0}, {1, 3, 2, 0}, {0, 99, 0}, {0, 1, 99, 1, 0}, {1, 63, 63, 63, 58, 0}, {1, 63, 63, 63, 59, 0}, {0, 63, 63, 63, 60, 0}},
 		Bound:    "isAvailable and (single label) register of labels of the lengths given by the params + '.com', every byte symbolic; totals 255/256 in the thorough tier"},
 	{Prop: "C18", Unwind: 300, Pkg: "nns", Func: "VerifC18TLD", Link: []string{"nns"},
-		Quick: [][]int{{1}, {2}, {3}, {4}, {16}, {17}},
-		Bound: "isAvailable(s) and registerTLD(s) by the committee for every dot-free string s of the length given by the param, on an NNS without TLDs"},
+		Quick: [][]int{{1, 0}, {2, 0}, {3, 0}, {4, 0}, {16, 0}, {17, 0}, {2, 1}, {3, 1}, {4, 1}},
+		Bound: "isAvailable(s) and registerTLD(s) by the committee for every dot-free string s of the length given by param0, on an NNS without TLDs (param1 = 0) or with the TLDs com, ab-cd and c-d already registered (param1 = 1: validity must not depend on the registered roots; proper prefixes of the hyphenated ones are not valid labels)"},
 	{Prop: "C19", Pkg: "neofs", Func: "VerifC19Deposit", Link: []string{"neofs", "processing"},
 		Quick: [][]int{{1, 0}, {1, 20}, {1, 7}, {0, 20}, {1, 2}}, Thorough: [][]int{{1, 0}, {1, 20}, {1, 7}, {0, 20}, {0, 0}, {1, 2}, {1, 19}, {1, 21}, {0, 7}},
 		Bound: "one GAS transfer user->NeoFS with symbolic amount in Z, symbolic funds 0..20000 GAS, symbolic user witness, receiver data of length param 1 (all bytes symbolic); param 0: Notary mode; plus one direct call of onNEP17Payment"},
 	{Prop: "C19", Pkg: "neofs", Func: "VerifC19Accounting", Link: []string{"neofs", "processing"},
 		Quick: [][]int{{1, 1}, {0, 1}, {0, 3}}, Thorough: [][]int{{1, 1}, {1, 4}, {0, 1}, {0, 3}, {0, 4}, {0, 7}},
 		Bound: "deposit, withdraw request, candidate registration, cheque with symbolic amounts/fees/funds/witnesses; param 0: Notary mode, param 1: number of stored Alphabet keys (the cheque is asserted with Notary or one key)"},
-	{Prop: "C19", Pkg: "alphabet", Func: "VerifC19Emit", Link: []string{"alphabet", "proxy"},
-		Quick: [][]int{{1, 1, 0, 0, 0}, {1, 3, 0, 0, 0}, {4, 3, 2, 0, 0}, {4, 7, 0, 0, 0}, {1, 3, 0, 1, 0}, {1, 1, 1, 0, 2}, {4, 3, 5, 0, 7}}, Thorough: [][]int{{1, 1, 1, 0, 2}, {4, 3, 5, 0, 7}, {4, 3, 4, 0, 7}, {1, 1, 0, 0, 0}, {1, 2, 0, 0, 0}, {1, 3, 0, 0, 0}, {4, 3, 2, 0, 0}, {4, 7, 0, 0, 0}, {7, 5, 6, 0, 0}, {7, 4, 3, 0, 0}, {4, 6, 1, 0, 0}, {1, 1, 0, 1, 0}, {1, 3, 0, 1, 0}, {4, 3, 2, 1, 0}},
-		Bound: "committee size param 0, Inner Ring size param 1, Alphabet contract index param 2; param 3 = 1: the Inner Ring is re-designated to a disjoint list in the block right before the emission; param 4 (if given) = the number of Alphabet contracts recorded at deployment when it exceeds the committee size: a contract whose index is not below the committee size has no node of its own and must refuse everybody; contract balance g symbolic 0..10^12; invoker symbolic (any committee member or a stranger); native GAS ledger stub (DESIGN.md 2.3)"},
+	{Prop: "C19", Pkg: "alphabet", Func: "VerifC19Emit", Link: []string{"alphabet", "proxy", "netmap"},
+		Quick: [][]int{{1, 3, 0, 0, 0, 1}, {4, 3, 2, 0, 0, 1}, {1, 1, 0, 0, 0, 0}, {1, 3, 0, 0, 0, 0}, {4, 3, 2, 0, 0, 0}, {4, 7, 0, 0, 0, 0}, {1, 3, 0, 1, 0, 0}, {1, 1, 1, 0, 2, 0}, {4, 3, 5, 0, 7, 0}}, Thorough: [][]int{{1, 1, 1, 0, 2, 0}, {4, 3, 5, 0, 7, 0}, {4, 3, 4, 0, 7, 0}, {1, 1, 0, 0, 0, 0}, {1, 2, 0, 0, 0, 0}, {1, 3, 0, 0, 0, 0}, {4, 3, 2, 0, 0, 0}, {4, 7, 0, 0, 0, 0}, {7, 5, 6, 0, 0, 0}, {7, 4, 3, 0, 0, 0}, {4, 6, 1, 0, 0, 0}, {1, 1, 0, 1, 0, 0}, {1, 3, 0, 1, 0, 0}, {4, 3, 2, 1, 0, 0}},
+		Bound: "committee size param 0, Inner Ring size param 1, Alphabet contract index param 2; param 3 = 1: the Inner Ring is re-designated to a disjoint list in the block right before the emission; param 5 = 1: a mixed deployment (Netmap address resolved through NNS, Proxy address explicit and different from the contract NNS names proxy: the explicit one is paid); param 4 (if given) = the number of Alphabet contracts recorded at deployment when it exceeds the committee size: a contract whose index is not below the committee size has no node of its own and must refuse everybody; contract balance g symbolic 0..10^12; invoker symbolic (any committee member or a stranger); native GAS ledger stub (DESIGN.md 2.3)"},
 	{Prop: "C19", Pkg: "alphabet", Func: "VerifC19Payments", Link: []string{"alphabet", "proxy", "processing", "neofs"},
 		Bound: "GAS transfers of a symbolic amount 0..1000 to Proxy, Processing and Alphabet; direct calls of their onNEP17Payment"},
 	{Prop: "C13", Pkg: "deploy", Func: "VerifC13DivideFunds", Native: true, Unwind: 20,
@@ -188,6 +193,8 @@ var registry = []Harness{
 		Quick:    [][]int{{1, 0, 0}, {4, 4, 0}, {7, 7, 0}, {1, 4, 1}, {4, 0, 1}, {4, 4, 2}, {4, 0, 3}, {1, 0, 3}},
 		Thorough: [][]int{{1, 0, 0}, {1, 4, 0}, {1, 7, 0}, {4, 0, 0}, {4, 4, 0}, {4, 7, 0}, {7, 0, 0}, {7, 4, 0}, {7, 7, 0}, {1, 0, 1}, {1, 4, 1}, {4, 0, 1}, {4, 7, 1}, {7, 4, 1}, {1, 0, 2}, {4, 4, 2}, {7, 7, 2}, {1, 0, 3}, {4, 0, 3}, {7, 4, 3}},
 		Bound:    "five linked contracts; committee size param0 in {1,4,7}; V2 blob with version-field length param1 in {0,4,7} and every other byte symbolic; fees (0 included), owner balance symbolic; symbolic Alphabet signature; param2: 1 = named container (alias fee, NNS registration), 2 = named with a domain registered in advance by the committee, 3 = the owner is the first Alphabet node itself (one fee leg is a self-transfer); then the fee is changed and a second container is put"},
+	{Prop: "C04", Unwind: 300, Pkg: "container", Func: "VerifC04ForeignNNS", Link: []string{"nns", "netmap", "balance", "neofsid", "container", "probe4"},
+		Bound: "the system NNS is contract 1, Container is deployed with the address of ANOTHER name service (probe contract mininns) for container names: putNamed, delete, putNamed of another container under the same name; the alias record lives and dies in the configured service"},
 	{Prop: "C04", Unwind: 300, Pkg: "container", Func: "VerifC04ExpiredAlias", Link: []string{"nns", "netmap", "balance", "neofsid", "container"},
 		Bound: "a container put under a name whose domain the committee registered with a symbolic lifetime 1..1000 s, a symbolic time span 1..1.1*10^6 ms, then delete: successful whether or not the domain has lapsed, complete (getters, count, alias, one DeleteSuccess) and final (the blob is refused afterwards, plain and named)"},
 	{Prop: "C04", Pkg: "container", Func: "VerifC04Registry", Link: []string{"nns", "netmap", "balance", "neofsid", "container"},
@@ -195,15 +202,18 @@ var registry = []Harness{
 		Thorough: c04Thorough(),
 		Bound: "param0 consecutive symbolic operations (put, put with meta flag, putNamed with one shared name, delete, setEACL; symbolic target among two pool containers and a foreign id; symbolic Alphabet signature); blobs with version-field length param1 (+100: blobs that END with the owner ID, 31 bytes for an empty version field) and all other bytes symbolic, second owner symbolic (same or other); after each operation get/owner/eACL/alias/count/list/containersOf and the NNS alias record are compared with a reference model; fees are zero (C05 covers them)"},
 	{Prop: "C10", Unwind: 300, Pkg: "nns", Func: "VerifC10Lifecycle", Link: []string{"nns"},
-		Quick:    [][]int{{0, 30, 0, 99, 99}, {0, 10, 99, 99, 99}, {0, 20, 99, 99, 99}, {0, 2, 30, 99, 99}, {0, 2, 32, 99, 99}, {0, 30, 20, 99, 99}, {0, 1, 10, 99, 99}, {0, 1, 30, 0, 99}},
-		Thorough: [][]int{{0, 30, 0, 99, 99}, {0, 10, 99, 99, 99}, {0, 20, 99, 99, 99}, {0, 2, 30, 99, 99}, {0, 2, 32, 99, 99}, {0, 1, 10, 99, 99}, {0, 1, 30, 0, 99}, {0, 1, 10, 11, 99}, {0, 10, 30, 0, 99}, {0, 30, 10, 99, 99}, {0, 20, 30, 20, 99}, {0, 1, 10, 30, 99}, {0, 30, 30, 0, 99}, {0, 2, 30, 2, 99}, {0, 2, 12, 32, 99}},
-		Bound:    "NNS with one TLD; pool names a.com, b.com, x.a.com, owners o1,o2; the step kinds and names are the params (register / transfer / renew / time passes), within a step the signer, receiver, lifetime 1..4*10^8 s, years 0..11 and the time span 1..3*10^6 ms are symbolic; after every step totalSupply, balanceOf, tokensOf, isAvailable and ownerOf of the name are compared with a reference model (block clock symbolic)"},
+		Quick:    [][]int{{0, 20, 99, 99, 99, 1}, {0, 30, 20, 99, 99, 1}, {0, 2, 32, 99, 99, 1}, {0, 30, 0, 99, 99, 0}, {0, 10, 99, 99, 99, 0}, {0, 20, 99, 99, 99, 0}, {0, 2, 30, 99, 99, 0}, {0, 2, 32, 99, 99, 0}, {0, 30, 20, 99, 99, 0}, {0, 1, 10, 99, 99, 0}, {0, 1, 30, 0, 99, 0}},
+		Thorough: [][]int{{0, 30, 0, 99, 99, 0}, {0, 10, 99, 99, 99, 0}, {0, 20, 99, 99, 99, 0}, {0, 2, 30, 99, 99, 0}, {0, 2, 32, 99, 99, 0}, {0, 1, 10, 99, 99, 0}, {0, 1, 30, 0, 99, 0}, {0, 1, 10, 11, 99, 0}, {0, 10, 30, 0, 99, 0}, {0, 30, 10, 99, 99, 0}, {0, 20, 30, 20, 99, 0}, {0, 1, 10, 30, 99, 0}, {0, 30, 30, 0, 99, 0}, {0, 2, 30, 2, 99, 0}, {0, 2, 12, 32, 99, 0}},
+		Bound:    "NNS with one TLD; pool names a.com, b.com, x.a.com, owners o1,o2; the step kinds and names are the params (register / transfer / renew / time passes), within a step the signer, receiver, lifetime 1..4*10^8 s, years 0..11 and the time span 1..3*10^6 ms are symbolic; after every step totalSupply, balanceOf, tokensOf, isAvailable and ownerOf of the name are compared with a reference model (block clock symbolic); param5 = 1: the pool is com.com, b.com, x.com.com (a name whose leftmost label is also a registered TLD)"},
 	{Prop: "C10", Unwind: 300, Pkg: "nns", Func: "VerifC10ExpiredTLD", Link: []string{"nns"},
 		Bound: "TLD org registered by the committee with a symbolic lifetime 1..1000 s, a.org with a symbolic lifetime 1..2000 s and one record, a symbolic time span 1..2.1*10^6 ms: ownerOf, properties, getRecords, resolve, getAllRecords answer exactly while the name AND its TLD are unexpired (witness exactly at the TLD's expiration replayed)"},
 	{Prop: "C11", Unwind: 300, Pkg: "nns", Func: "VerifC10Lifecycle", Link: []string{"nns"},
-		Quick:    [][]int{{0, 30, 0, 99, 99}, {0, 10, 99, 99, 99}, {0, 1, 10, 99, 99}},
-		Thorough: [][]int{{0, 30, 0, 99, 99}, {0, 10, 99, 99, 99}, {0, 10, 30, 0, 99}, {0, 1, 10, 99, 99}, {0, 1, 30, 0, 99}},
+		Quick:    [][]int{{0, 30, 0, 99, 99, 0}, {0, 10, 99, 99, 99, 0}, {0, 1, 10, 99, 99, 0}},
+		Thorough: [][]int{{0, 30, 0, 99, 99, 0}, {0, 10, 99, 99, 99, 0}, {0, 10, 30, 0, 99, 0}, {0, 1, 10, 99, 99, 0}, {0, 1, 30, 0, 99, 0}},
 		Bound:    "the lifecycle harness of C10 for register - time passes - register again, and register - transfer: after every step balanceOf and tokensOf of both owners list exactly what the model records, so an account that lost a name holds nothing of it"},
+	{Prop: "C11", Unwind: 300, Pkg: "nns", Func: "VerifC11LabelIsTLD", Link: []string{"nns"},
+		Quick: [][]int{{0}, {1}},
+		Bound: "TLDs com and zone; o1 owns zone.com (param0 = 1: com.zone), a second-level name whose label is also a registered TLD; one registration of a third-level name under it for o1 or for another account, with a symbolic signer set over {o1, the other account}+stranger: it takes effect exactly with the witnesses of the parent's owner and of the new owner"},
 	{Prop: "C11", Pkg: "nns", Func: "VerifC11Authorisation", Link: []string{"nns"},
 		Quick: c11Params(false), Thorough: c11Params(true),
 		Bound: "history: a.com registered by o1, one record, admin a1 (variant 0) / then transferred to o2 (variant 1) / then expired and registered again by o2 (variant 2: the appointed admin must be gone); ONE invocation of the method given by param1 (addRecord, setRecord, deleteRecords, updateSOA, renew, setAdmin, transfer, register 3rd level, register 2nd level, registerTLD, setPrice, register 4th level under a 3rd-level name of another owner) with a symbolic signer set over {o1,o2,o3,a1,new admin,committee}+stranger; committee size param2"},
@@ -211,6 +221,8 @@ var registry = []Harness{
 		Bound: "one registered name; a fixed sequence of record operations (add, add-possibly-duplicate, setRecord with symbolic index 0..2, add to an unregistered sub-name, registration attempt of a name whose sub-name has records, delete SOA, delete TXT) with symbolic 3-byte record data and a symbolic block clock; getRecords/getAllRecords and the SOA record (serial = time of the last mutation) compared with a model after each step"},
 	{Prop: "C12", Pkg: "nns", Func: "VerifC12DeepSubName", Link: []string{"nns"}, Unwind: 100,
 		Bound: "one registered name; records with symbolic 3-byte data for a sub-name one label below it and for a sub-name TWO labels below it (the name in between is not registered), read back through getRecords, getAllRecords, resolve and resolve with a trailing dot; fixed block clock"},
+	{Prop: "C12", Unwind: 300, Pkg: "nns", Func: "VerifC10ExpiredTLD", Link: []string{"nns"},
+		Bound: "the expired-TLD harness of C10: a TLD with a symbolic lifetime 1..1000 s, a name under it with a symbolic lifetime 1..2000 s and one record, a symbolic time span: getRecords, resolve and getAllRecords answer exactly while the name AND its TLD are unexpired (a name may outlive its TLD)"},
 	{Prop: "C12", Pkg: "nns", Func: "VerifC12Limits", Link: []string{"nns"}, Unwind: 100,
 		Quick: [][]int{{17}}, Thorough: [][]int{{16}, {17}, {18}},
 		Bound: "param0 additions of distinct TXT records (one symbolic byte each): exactly the first 16 are accepted; a second CNAME is refused"},
